@@ -130,8 +130,21 @@ def gen_mesh_areas(rng):
 
 
 def gen_hull(rng):
-    kind = rng.choice(["random", "collinear", "dup", "circle", "reversed", "dip", "dip"])
+    kind = rng.choice(["random", "collinear", "dup", "circle", "reversed", "dip", "dip", "twins"])
     n = rng.choice([3, 4, 8, 30, 100])
+    if kind == "twins":
+        # uneven spacing around a small ball (radius 0.3): sites about 0.5 apart, each with a twin 0.2 away - neighbours both well inside
+        # and near the rim of the search radius 2r = 0.6
+        m = rng.choice([6, 12, 25])
+        side = math.sqrt(m) * 0.5
+        sites = [[rng.uniform(0, side), rng.uniform(0, side)] for _ in range(m)]
+        pts = []
+        for q in sites:
+            t = rng.uniform(0, 2 * math.pi)
+            pts += [q, [q[0] + 0.2 * math.cos(t), q[1] + 0.2 * math.sin(t)]]
+        sc = rng.choice([0.1, 1.0, 1.0, 10.0])
+        pts = [[x * sc, y * sc] for x, y in pts]
+        return {"k": "c15.hull", "pts": pts, "radius": 0.3 * sc, "pivot_ccw": rng.random() < 0.5, "kind": kind, "timeout_ms": 5000}
     if kind == "dip":
         # a hull on which the distance from one end of the diameter first rises, then dips, then rises to the other end: the row
         # of the pair scan that holds the diameter is not unimodal; turned by a random angle so that the hull may start anywhere
